@@ -61,12 +61,19 @@ def inherent_variants(tier, seed):
     from . import c17
     rng = random.Random(seed + 17)
     cases = []
-    for k in range(8 if tier == 'quick' else 80):
+    # idx = struct + 8 * (ngroups + 2 * relaxation plan) for the structs with a ?Sized parameter
+    # (w6 at 2, w7 at 3): the quick tier adds the plans where the FIRST block relaxes
+    for k in (list(range(8)) + [2 + 32, 3 + 48, 2 + 56, 3 + 40] if tier == 'quick' else range(80)):
         # every struct shape in turn (two lifetimes, const before type, ?Sized parameters, ..)
-        c = c17.gen(rng, idx=k, structs=['w8', 'w3', 'w6', 'w2', 'w7', 'w4', 'w5', 'w1'])
+        # (w6 meets the plan `first_only`, w7 the plan `all`: the FIRST block relaxes)
+        c = c17.gen(rng, idx=k, structs=['w8', 'w3', 'w6', 'w7', 'w2', 'w4', 'w5', 'w1'])
         cases.append(c)
-        for _ in range(2):
-            cases.append(rewrite(rng, c))
+        # the two rewritings write every relaxation inline / in the where-clause
+        for placement in ('inline', 'where'):
+            v = rewrite(rng, c)
+            for b in v.blocks:
+                b.relaxed = {s: placement for s in b.relaxed}
+            cases.append(v)
     return c17.core(rng, 0, cases=cases)
 
 
